@@ -345,3 +345,21 @@ fn verify_single_update_proof<TC: Configuration>(
 
     Ok(verify_result)
 }
+
+/// Verification hooks (only with `--cfg facebook_akd_verif`): public wrapper around the
+/// crate-private shape check of this module, so that an external harness crate can drive it
+/// directly. It adds no behaviour.
+#[cfg(facebook_akd_verif)]
+pub mod verif_hooks {
+    use super::*;
+
+    /// [super::verify_with_history_params]
+    pub fn verify_with_history_params(
+        current_epoch: u64,
+        akd_label: &AkdLabel,
+        proof: &HistoryProof,
+        params: HistoryParams,
+    ) -> Result<(Vec<u64>, Vec<u64>), VerificationError> {
+        super::verify_with_history_params(current_epoch, akd_label, proof, params)
+    }
+}
